@@ -2,6 +2,9 @@
 C02 — best-effort tree construction follows the token sequence, however nested.
 Stream `C02`: histories of 1-3 parses on one parser object; each parse is an abstract token sequence rendered to
 markup by a rich renderer; the model gets the token list the real tokenizer reports for that markup.
+Further case kinds on the same stream: `wrap` (`utils.addStartTag` at character level), `strip` (`utils.stripIEConditionals`
+at character level: model vs the real function; oracle: parseStr(text) is the rest of `feed` applied to the stripped text),
+`stripparse` (parseStr of a text with IE conditional comments: model strips, real tokenizer, model builds).
 """
 import io
 import itertools
@@ -377,9 +380,13 @@ class Check(PropCheck):
             '(thorough) of 11 fragments (comment open, [if, blank, newline, -->, x, </html>, <html>, a doctype, a dash, a whole '
             'conditional), seeded documents with 0-3 conditional comments (usual, downlevel-revealed, white space in the opener, '
             'several per line, repeated, --> later on the line, html end tag with/without start tag, doctype in front) and near '
-            'misses, and fragment soup. Non-trivial: contains <!-- and if.')
+            'misses, and fragment soup. Kind stripparse: parseStr of such documents on a plain or indexed parser, the model doing the '
+            'stripping, the real tokenizer supplying the tokens of the stripped text and of its wrapped form. Non-trivial (both '
+            'kinds): contains <!-- and if.')
     assumptions = ['the stdlib tokenizer is a parameter: the model is fed the token sequence the real html.parser reports for the '
                    'rendered markup (convert_charrefs=False, never close()d)',
+                   'the regular-expression engine (re) is trusted to implement the three patterns of utils.py; the model of '
+                   'stripIEConditionals is compared with the real function character by character (kinds strip, stripparse)',
                    'reserved wrapper tag name and children of script/style are outside the domain (property text)']
 
     def cases(self, tier, rng):
@@ -414,6 +421,11 @@ class Check(PropCheck):
                 yield Case({'kind': 'strip', 'text': ''.join(seq)}, 'exhaustive-strip')
         for _ in range(n):
             yield Case({'kind': 'strip', 'text': ie_text(rng)}, 'random-strip')
+        # `parseStr(text)` end to end with the stripping step done by the model (tokenizer = the real one)
+        for t in IE_FIXED:
+            yield Case({'kind': 'stripparse', 'parser': 'plain', 'text': t}, 'exhaustive-strip')
+        for _ in range(n):
+            yield Case({'kind': 'stripparse', 'parser': rng.choice(('plain', 'indexed')), 'text': ie_text(rng)}, 'random-strip')
         for _ in range(n // 2):
             # fragment soup: overlapping dashes, openers without an end, ends without an opener, html tags anywhere
             soup = ''.join(rng.choice(IE_FRAGS + IE_FRAGS[:5] + ['>', '<', '!', '[', 'if', '\t', '\r', '</HTML >', '< html >'])
@@ -478,7 +490,7 @@ class Check(PropCheck):
     def nontrivial(self, d):
         if d.get('kind') == 'wrap':
             return '<!' in d['text']
-        if d.get('kind') == 'strip':
+        if d.get('kind') in ('strip', 'stripparse'):
             return '<!--' in d['text'] and 'if' in d['text']
         return any(len(h['toks']) >= 2 and any(t[0] in ('start', 'startend') for t in h['toks']) for h in d['hist'])
 
@@ -487,6 +499,9 @@ class Check(PropCheck):
             return ['kind:wrap']
         if d.get('kind') == 'strip':
             return self.strip_features(d['text'])
+        if d.get('kind') == 'stripparse':
+            return ['kind:stripparse', 'parser:' + d['parser']] + \
+                [f.replace('strip:', 'stripparse:') for f in self.strip_features(d['text'])[1:]]
         fs = {'parser:' + d['parser'], 'parses=%d' % len(d['hist'])}
         for h in d['hist']:
             fs.add('entry:' + h['entry'])
@@ -522,10 +537,10 @@ class Check(PropCheck):
         return sorted(fs)
 
     def shrink(self, d):
-        if d.get('kind') in ('wrap', 'strip'):
+        if d.get('kind') in ('wrap', 'strip', 'stripparse'):
             t = d['text']
             for i in range(len(t)):
-                yield {'kind': d['kind'], 'text': t[:i] + t[i + 1:]}
+                yield dict(d, text=t[:i] + t[i + 1:])
             return
         hist = d['hist']
         if len(hist) > 1:
@@ -557,6 +572,14 @@ class Check(PropCheck):
         if d.get('kind') == 'strip':
             from ..core import enc
             return sx('strip', enc(d['text']))
+        if d.get('kind') == 'stripparse':
+            from ..core import enc
+            from AdvancedHTMLParser.utils import stripIEConditionals, addStartTag
+            from AdvancedHTMLParser.constants import INVISIBLE_ROOT_TAG_START, INVISIBLE_ROOT_TAG_END
+            st = stripIEConditionals(d['text'])
+            w = '%s%s' % (addStartTag(st, INVISIBLE_ROOT_TAG_START), INVISIBLE_ROOT_TAG_END)
+            return '(stripparse %s %s %s %s)' % (enc(d['text']), enc(st), parsing.toks_sx(parsing.tokenize(st)),
+                                                 parsing.toks_sx(parsing.tokenize(w)))
         return '(' + ' '.join(parsing.toks_sx(parsing.tokenize(render(h['toks'], h['rich']))) for h in d['hist']) + ')'
 
     def run_history(self, d):
@@ -586,6 +609,15 @@ class Check(PropCheck):
             from ..core import enc
             from AdvancedHTMLParser.utils import stripIEConditionals
             return enc(stripIEConditionals(d['text']))
+        if d.get('kind') == 'stripparse':
+            p = make_parser(d['parser'])
+            try:
+                p.parseStr(d['text'])
+            except Exception as e:      # noqa
+                return sx('raise', type(e).__name__)
+            root = p.getRoot()
+            second = root is not None and root.tagName == WRAPPER
+            return sx('second' if second else 'first', parsing.doc_sx(p))
         out = []
         for text, parser, exc in self.run_history(d):
             if exc is not None:
@@ -615,7 +647,7 @@ class Check(PropCheck):
     def oracle(self, d):
         if d.get('kind') == 'wrap':
             return self.wrap_oracle(d['text'])
-        if d.get('kind') == 'strip':
+        if d.get('kind') in ('strip', 'stripparse'):
             return self.strip_oracle(d['text'])
         for n, (text, parser, exc) in enumerate(self.run_history(d)):
             if exc is not None:
